@@ -1,6 +1,7 @@
 package checks
 
 import (
+	"bytes"
 	"encoding/binary"
 	"encoding/json"
 	"fmt"
@@ -391,6 +392,16 @@ func C10(c *ev.Ctx) {
 	}
 	memEvs, memSeg, memOv, memN := build(false)
 	fileEvs, fileSeg, fileOv, fileN := build(true)
+	{
+		bevs, bseg, bn := fileBursts(c, imgDir, &nextVal)
+		for at, d := range bseg {
+			fileSeg[len(fileEvs)+at] = d
+		}
+		fileEvs = append(fileEvs, bevs...)
+		fileOv += overlapScore(bevs)
+		fileN += bn
+		c.Set("file_burst_rounds", bn)
+	}
 	c.Sample(map[string]any{"kind": "mem history prefix", "events": memEvs[:min(16, len(memEvs))]})
 	lin := func(module string, evs []map[string]any, seg map[int]string, dfs bool, nh int) {
 		rest := evs
@@ -510,4 +521,184 @@ func raceDiskChild(args []string) int {
 	}
 	fmt.Printf("RACE-DRIVER-DONE %d operations under -race\n", ops)
 	return 0
+}
+
+// ---- barrier-released bursts on the file-backed disk ----
+
+const (
+	htQ0   = 900000001 // fixed first half
+	htP0   = 900000002 // fixed second half
+	htBase = 900000003 // the block (Q0 first half, P0 second half)
+)
+
+// htBlock: kind 0 = pattern(v); kind 1 = first half of pattern(v) + fixed second half; kind 2 = fixed first half +
+// second half of pattern(v). Two writes of kinds 1 and 2 over the base block differ from it in disjoint byte ranges.
+func htBlock(v, kind int) []byte {
+	b := make([]byte, 4096)
+	switch kind {
+	case 1:
+		copy(b[:2048], pattern(v)[:2048])
+		copy(b[2048:], pattern(htP0)[2048:])
+	case 2:
+		copy(b[:2048], pattern(htQ0)[:2048])
+		copy(b[2048:], pattern(v)[2048:])
+	case 3:
+		copy(b[:2048], pattern(htQ0)[:2048])
+		copy(b[2048:], pattern(htP0)[2048:])
+	default:
+		copy(b, pattern(v))
+	}
+	return b
+}
+
+// classifyHT maps a block back to the value that was written, or rTORN for any mixture.
+func classifyHT(b []byte) int {
+	if len(b) != 4096 {
+		return rTORN
+	}
+	half := func(lo int) int {
+		w0 := binary.LittleEndian.Uint64(b[lo*8:]) - uint64(lo)*0x100000001B3
+		v := w0 * patInv
+		if v > 1<<40 {
+			return -1
+		}
+		if v == 0 {
+			for _, x := range b[lo*8 : lo*8+2048] {
+				if x != 0 {
+					return -1
+				}
+			}
+			return 0
+		}
+		p := pattern(int(v))
+		if !bytes.Equal(p[lo*8:lo*8+2048], b[lo*8:lo*8+2048]) {
+			return -1
+		}
+		return int(v)
+	}
+	a, z := half(0), half(256)
+	switch {
+	case a < 0 || z < 0:
+		return rTORN
+	case a == z:
+		return a
+	case a == htQ0 && z == htP0:
+		return htBase
+	case z == htP0 && a != htQ0 && a%3 == 1:
+		return a
+	case a == htQ0 && z != htP0 && z%3 == 2:
+		return z
+	}
+	return rTORN
+}
+
+// fileBursts: (1) on one address, a base block is written, then two clients released by a spin barrier write blocks
+// that differ from the base in disjoint halves, then the address is read; (2) on a freshly created image two clients
+// write two distinct addresses at once (the first writes the image ever gets), then both are read.
+func fileBursts(c *ev.Ctx, imgDir string, nextVal *int64) ([]map[string]any, map[int]string, int) {
+	var evs []map[string]any
+	seg := map[int]string{}
+	var seq atomic.Int64
+	type logT struct {
+		mu sync.Mutex
+		l  []seqEv
+	}
+	var lg logT
+	call := func(g int, op string, a, v int, f func() int) {
+		inv := seqEv{e: map[string]any{"ev": "inv", "c": g, "op": op, "a": a, "v": v}}
+		inv.seq = seq.Add(1)
+		r := f()
+		res := seqEv{e: map[string]any{"ev": "res", "c": g, "r": r}}
+		res.seq = seq.Add(1)
+		lg.mu.Lock()
+		lg.l = append(lg.l, inv, res)
+		lg.mu.Unlock()
+	}
+	write := func(d disk.Disk, g, a, v int, blk []byte) {
+		call(g, "write", a, v, func() int {
+			if catchPanic(func() { d.Write(uint64(a), blk) }) {
+				return rPANIC
+			}
+			return rOK
+		})
+	}
+	read := func(d disk.Disk, g, a int) {
+		call(g, "read", a, 0, func() int {
+			var out []byte
+			if catchPanic(func() { out = d.Read(uint64(a)) }) {
+				return rPANIC
+			}
+			return classifyHT(out)
+		})
+	}
+	flush := func(desc string, n int) {
+		sort.Slice(lg.l, func(i, j int) bool { return lg.l[i].seq < lg.l[j].seq })
+		seg[len(evs)] = desc
+		evs = append(evs, map[string]any{"ev": "reset", "n": n})
+		for _, e := range lg.l {
+			evs = append(evs, e.e)
+		}
+		lg.l = nil
+	}
+	fresh := func(k int) int { // globally unique value with v%3 == k
+		for {
+			v := int(atomic.AddInt64(nextVal, 1))
+			if v%3 == k {
+				return v
+			}
+		}
+	}
+	pair := func(f1, f2 func()) {
+		bar := &spinBarrier{n: 2}
+		var wg sync.WaitGroup
+		wg.Add(2)
+		go func() { defer wg.Done(); bar.wait(); f1() }()
+		go func() { defer wg.Done(); bar.wait(); f2() }()
+		wg.Wait()
+	}
+	rounds := 0
+	// (1) same address, disjoint halves
+	{
+		p := filepath.Join(imgDir, "burst.img")
+		_ = os.Remove(p)
+		d, err := disk.NewFileDisk(p, 2)
+		if err != nil {
+			c.Inconclusive("NewFileDisk: %v", err)
+			return nil, nil, 0
+		}
+		per := 250
+		for blk := 0; blk < c.Pick(8, 80); blk++ {
+			for r := 0; r < per; r++ {
+				a := r % 2
+				write(d, 0, a, htBase, htBlock(0, 3))
+				v1, v2 := fresh(1), fresh(2)
+				pair(func() { write(d, 1, a, v1, htBlock(v1, 1)) }, func() { write(d, 2, a, v2, htBlock(v2, 2)) })
+				read(d, 0, a)
+				rounds++
+			}
+			flush(fmt.Sprintf("file bursts: %d rounds of base write, two concurrent half-different writes to one address, read", per), 2)
+		}
+		d.Close()
+	}
+	// (2) fresh image, two distinct addresses written at once
+	for r := 0; r < c.Pick(2500, 25000); r++ {
+		p := filepath.Join(imgDir, "fresh.img")
+		_ = os.Remove(p)
+		n := 4 + r%5
+		d, err := disk.NewFileDisk(p, uint64(n))
+		if err != nil {
+			c.Inconclusive("NewFileDisk: %v", err)
+			break
+		}
+		lo := r % (n - 1)
+		hi := lo + 1 + (r/7)%(n-1-lo)
+		v1, v2 := fresh(0), fresh(0)
+		pair(func() { write(d, 1, lo, v1, htBlock(v1, 0)) }, func() { write(d, 2, hi, v2, htBlock(v2, 0)) })
+		read(d, 0, lo)
+		read(d, 0, hi)
+		d.Close()
+		flush(fmt.Sprintf("file fresh image n=%d: concurrent first writes to addresses %d and %d, then reads", n, lo, hi), n)
+		rounds++
+	}
+	return evs, seg, rounds
 }
